@@ -6,6 +6,7 @@
 -/
 import CdnsVerif.Model.Schema
 import CdnsVerif.Generated.Constants
+import CdnsVerif.Generated.Schemas
 namespace CdnsVerif.Model.Structs
 open CdnsVerif.Model.Schema CdnsVerif.Generated
 
@@ -222,5 +223,37 @@ def keysNodup : Kind → Bool
 theorem schemas_keys_nodup : [storageHints, storageParameters, collectionParameters, blockParameters, filePreamble, blockPreamble,
     blockStatistics, classType, queryResponseSignature, question, rr, malformedMessageData, blockTables, responseProcessingData,
     queryResponseExtended, queryResponse, addressEventCount, malformedMessage, block].all keysNodup = true := by decide +kernel
+
+/-! ### the schemas against what the translator extracted by running the library's own writers and readers (T3)
+
+  `Generated.schemaTable` is regenerated on every run from the working tree: per struct, in the order the writer emits them,
+  the key each member is written under, the kind and width of the item written, the width the reader keeps, and whether the
+  reader insists on the member.  `Props.C09.preamble_schemas_match_source` / `Props.C01.block_schemas_match_source` state
+  that the hand-written schemas above ARE that table. -/
+
+def sigOf : Kind → KindSig
+  | .uint b => .u b
+  | .int64 => .i64
+  | .tstr => .tstr
+  | .bstr => .bstr
+  | .bool => .bool
+  | .arr k => .arr (sigOf k)
+  | .struct _ => .struct
+
+/-- what a schema says about a struct: (key, kind, required by the reader) in declaration (= writing) order -/
+def rowsOf : Kind → List (Int × KindSig × Bool)
+  | .struct fs => fs.map fun f => (f.key, sigOf f.kind, f.required)
+  | _ => []
+
+/-- what the source says.  A time offset is an `int64_t` difference written unsigned: the largest one the probe can make the
+    library write is 2^63-1 (`.u 63`); the schema lists the member with the width of the unsigned write overload. -/
+def sourceRows (name : String) : Option (List (Int × KindSig × Bool)) :=
+  (schemaTable.find? (·.1 == name)).map fun e => e.2.map fun r => (r.1, (if r.2.1 = .u 63 then .u 64 else r.2.1), r.2.2.2)
+
+/-- the reader keeps of a foreign 2^64-1 exactly the width the writer uses (the `(uintN_t) read_unsigned()` narrowing) -/
+def readerWidthsAgree (name : String) : Bool :=
+  match schemaTable.find? (·.1 == name) with
+  | some e => e.2.all fun r => match r.2.2.1 with | some s => s == r.2.1 | none => true
+  | none => false
 
 end CdnsVerif.Model.Structs
